@@ -551,8 +551,11 @@ class Array(Environment):
                 continue
 
             if tok == '@':
+                # Always consume the argument, an @-expression may also
+                # come before the first column (e.g. @{}lll@{})
+                between = tex.readArgument()
                 if output:
-                    output[-1].between = tex.readArgument()
+                    output[-1].between = between
                 continue
 
             if tok == '*':
